@@ -84,6 +84,23 @@ type flowConn struct {
 	// call is held for a moment so that the answer is fully digested first
 	eagerLeft int
 	eagerFn   func(ids []uuid.UUID)
+	events    []string // what the client saw and did, with times (diagnostics)
+	t0        time.Time
+}
+
+func (c *flowConn) logf(f string, a ...any) {
+	if c.t0.IsZero() {
+		c.t0 = time.Now()
+	}
+	c.events = append(c.events, fmt.Sprintf("+%v ", time.Since(c.t0).Round(10*time.Microsecond))+fmt.Sprintf(f, a...))
+}
+
+func (c *flowConn) tail() string {
+	ev := c.events
+	if len(ev) > 14 {
+		ev = ev[len(ev)-14:]
+	}
+	return strings.Join(ev, "; ")
 }
 
 func (c *flowConn) eager(ds []*actions.SubscriptionMessageDelivery) {
@@ -141,6 +158,7 @@ func (c *flowConn) record(ds []*actions.SubscriptionMessageDelivery) {
 			continue
 		}
 		c.out[d.ID] = len(d.Payload)
+		c.logf("sent %s (%d B, attempt %d)", d.ID.String()[:8], len(d.Payload), d.NumAttempts)
 		c.sizeLog = append(c.sizeLog, len(d.Payload))
 		c.order = append(c.order, d.ID)
 		c.sentAt[d.ID] = time.Now()
@@ -154,10 +172,10 @@ func (c *flowConn) record(ds []*actions.SubscriptionMessageDelivery) {
 			c.everFull = true
 		}
 		if n > c.maxMsgs && c.violation == "" {
-			c.violation = fmt.Sprintf("too-many-outstanding: %d messages are outstanding on the stream, max_outstanding_messages is %d", n, c.maxMsgs)
+			c.violation = fmt.Sprintf("too-many-outstanding: %d messages are outstanding on the stream, max_outstanding_messages is %d [client log: %s]", n, c.maxMsgs, c.tail())
 		}
 		if b > c.maxBytes && !(wasEmpty && n == 1) && c.violation == "" {
-			c.violation = fmt.Sprintf("too-many-bytes: %d bytes are outstanding on the stream (%d messages), max_outstanding_bytes is %d and this is not a single oversized message sent on an empty window", b, n, c.maxBytes)
+			c.violation = fmt.Sprintf("too-many-bytes: %d bytes are outstanding on the stream (%d messages), max_outstanding_bytes is %d and this is not a single oversized message sent on an empty window [client log: %s]", b, n, c.maxBytes, c.tail())
 		}
 	}
 }
@@ -183,6 +201,9 @@ func (c *flowConn) take(n int) []uuid.UUID {
 	}
 	ids := append([]uuid.UUID(nil), c.order[:n]...)
 	c.order = c.order[n:]
+	for _, id := range ids {
+		c.logf("client settles %s", id.String()[:8])
+	}
 	for _, id := range ids {
 		delete(c.out, id)
 	}
